@@ -188,6 +188,21 @@ func runExifProps(c *Ctx, which string) error {
 			addEp("DecodePng", inPNG(c, g.be, false), ep, "png", a)
 			a = addEp("Parse", g.le, expect, "parse", -1)
 			addEp("Parse", g.be, expect, "parse", a)
+			// the TIFF header at an arbitrary (odd or even) distance from the scan origin: a prefix without 'I'/'M' bytes
+			pre := make([]byte, 1+c.Rng.Intn(40))
+			for i := range pre {
+				pre[i] = byte(1 + c.Rng.Intn(60))
+			}
+			expPre, _ := finishModel(expectedRaw(g.r, 0)) // header not at offset 0: the image type stays unknown
+			a = addEp("Parse", append(append([]byte{}, pre...), g.le...), expPre, "parse-prefixed", -1)
+			addEp("Parse", append(append([]byte{}, pre...), g.be...), expPre, "parse-prefixed", a)
+			sub.Rng = newRand(st)
+			hl := inHEIF(&sub, g.le, true)
+			sub.Rng = newRand(st)
+			hb := inHEIF(&sub, g.be, true)
+			eh, _ := finishModel(expectedRaw(g.r, 6))
+			a = addEp("Decode", hl, eh, "heif", -1)
+			addEp("Decode", hb, eh, "heif", a)
 		}
 	}
 	// run the implementation side in a pool of workers
